@@ -107,7 +107,7 @@ fn do_call<F: Fl>(nodes: &[F::Node], c: &Value) -> Value {
             json!("scanned")
         }
         "degree" => {
-            let _ = F::obs(node(1), &[]);
+            F::plain_queries(node(1), n(1) as K);
             json!("degree")
         }
         o => panic!("unknown call {}", o),
@@ -330,4 +330,108 @@ where
     json!({"flavour": F::NAME, "scenarios": n_scen, "executions": n_exec, "lock_points": n_lock_events,
            "scenarios_truncated": truncated, "max_schedules_in_one_scenario": max_sched, "writer_preference": writer_pref,
            "preemption_bound": if pre_bound == usize::MAX { json!("none") } else { json!(pre_bound) }})
+}
+
+// ---------------------------------------------------------------------------
+/// free-running stress (no scheduler): threads run random calls drawn from a mix whose
+/// pairwise combinations are free of known findings (connect / scan / degree by default);
+/// any panic, poisoned lock or hang, or a final graph that is not the bag of performed
+/// connects, is a new failure. One event per round for TraceLocks ("stress").
+pub fn stress(opts: &HashMap<String, String>) -> Value {
+    let fl = opts.get("flavour").expect("--flavour").clone();
+    match fl.as_str() {
+        "sync_digraph" => stress_fl::<SyncDigraph>(opts),
+        "sync_ungraph" => stress_fl::<SyncUngraph>(opts),
+        o => panic!("stress runs the sync flavours only, not {}", o),
+    }
+}
+
+fn stress_fl<F: Fl>(opts: &HashMap<String, String>) -> Value
+where
+    F::Node: Send + Sync + 'static,
+{
+    use rand::rngs::StdRng;
+    use rand::{Rng, SeedableRng};
+    use std::io::Write;
+    let rounds: usize = opts.get("rounds").map(|s| s.parse().unwrap()).unwrap_or(20);
+    let threads: usize = opts.get("threads").map(|s| s.parse().unwrap()).unwrap_or(4);
+    let calls: usize = opts.get("calls").map(|s| s.parse().unwrap()).unwrap_or(300);
+    let n: usize = opts.get("nodes").map(|s| s.parse().unwrap()).unwrap_or(3);
+    let seed: u64 = opts.get("seed").map(|s| s.parse().unwrap()).unwrap_or(1);
+    let path = opts.get("trace").expect("--trace");
+    set_hook(None);
+    let mut f = std::io::BufWriter::new(std::fs::File::create(path).expect("create trace"));
+    let mut total_calls = 0usize;
+    for r in 0..rounds {
+        let world = World::<F>::new(n, None);
+        let nodes: Arc<Vec<F::Node>> = Arc::new(world.nodes.clone());
+        let (tx, rx) = std::sync::mpsc::channel::<(usize, Vec<(K, K)>, bool)>();
+        let barrier = Arc::new(std::sync::Barrier::new(threads));
+        for t in 0..threads {
+            let nodes = nodes.clone();
+            let tx = tx.clone();
+            let barrier = barrier.clone();
+            std::thread::spawn(move || {
+                guard::init();
+                let mut rng = StdRng::seed_from_u64(seed ^ ((r * 131 + t) as u64).wrapping_mul(0x9e3779b97f4a7c15));
+                let mut connects = vec![];
+                barrier.wait();
+                let ok = catch_unwind(AssertUnwindSafe(|| {
+                    for _ in 0..calls {
+                        let u = rng.gen_range(1..=nodes.len());
+                        let v = rng.gen_range(1..=nodes.len());
+                        match rng.gen_range(0..4) {
+                            0 | 1 => {
+                                F::connect(&nodes[u - 1], &nodes[v - 1], 1);
+                                connects.push((u as K, v as K));
+                            }
+                            2 => {
+                                let mut k = 0;
+                                F::edge_loop(&nodes[u - 1], false, &mut |_, _, _| k += 1);
+                            }
+                            _ => {
+                                F::plain_queries(&nodes[u - 1], v as K);
+                            }
+                        }
+                    }
+                }))
+                .is_ok();
+                let _ = tx.send((t, connects, ok));
+            });
+        }
+        drop(tx);
+        let mut performed: Vec<(K, K)> = vec![];
+        let mut finished = 0usize;
+        let mut panicked = false;
+        let deadline = std::time::Instant::now() + std::time::Duration::from_secs(20);
+        while finished < threads {
+            match rx.recv_timeout(deadline.saturating_duration_since(std::time::Instant::now())) {
+                Ok((_, c, ok)) => {
+                    finished += 1;
+                    performed.extend(c);
+                    panicked |= !ok;
+                }
+                Err(_) => break,
+            }
+        }
+        total_calls += threads * calls;
+        let hang = finished < threads;
+        let fin = if hang { json!("unreadable") } else {
+            match catch_unwind(AssertUnwindSafe(|| world.project())) {
+                Ok(s) => json!({"out": s.out, "inn": s.inn}),
+                Err(_) => json!("poisoned"),
+            }
+        };
+        performed.sort();
+        let readable = fin.is_object();
+        writeln!(f, "{}", json!({"ev": "stress", "threads": threads, "calls_per_thread": calls, "hang": hang, "panic": panicked,
+            "poisoned": fin == json!("poisoned"), "readable": readable,
+            "final": if readable { fin } else { json!({"out": vec![Vec::<i64>::new(); n], "inn": vec![Vec::<i64>::new(); n]}) },
+            "connects": performed})).unwrap();
+        if hang {
+            break; // threads are stuck: do not start another round on top of them
+        }
+    }
+    f.flush().unwrap();
+    json!({"flavour": F::NAME, "rounds": rounds, "threads": threads, "calls": total_calls})
 }
